@@ -110,3 +110,16 @@ M("C08", "shape_branch_span_y_x", "odc/geo/geobox.py", "        ry = -bbox.span_
 M("C08", "int_shape_wrong_side", "odc/geo/geobox.py", "            if bbox.aspect > 1:\n                resolution = bbox.span_x / shape", "            if bbox.aspect < 1:\n                resolution = bbox.span_x / shape", "int shape applied to the shorter side")
 M("C08", "floating_ceil_no_tol", "odc/geo/math.py", "            nx = ceil(maybe_int((x1 - x0) / res, tol))\n            return x0, max(1, nx)", "            nx = ceil((x1 - x0) / res) + 1\n            return x0, max(1, nx)", "floating grid one pixel too large")
 M("C08", "shape_unsnapped_bottom", "odc/geo/geobox.py", "            offx, offy = bbox.left, bbox.top\n", "            offx, offy = bbox.left, bbox.bottom\n", "unsnapped shape-driven box anchored at the bottom")
+
+# ----------------------------------------------------------------------------- C01
+M("C01", "split_no_check", "odc/geo/geom.py", "        if splitter.crs != self.crs:\n            raise CRSMismatchError(self.crs, splitter.crs)\n", "", "split without CRS check")
+M("C01", "wrap_none_is_wildcard", "odc/geo/geom.py", "            if first.crs != arg.crs:\n                raise CRSMismatchError((first.crs, arg.crs))", "            if first.crs is not None and arg.crs is not None and first.crs != arg.crs:\n                raise CRSMismatchError((first.crs, arg.crs))", "missing CRS accepted as a wildcard in binary geometry ops")
+M("C01", "bbox_union_first_pair_only", "odc/geo/geom.py", "        T = max(t, T)\n\n        if crs != bb.crs:\n            raise CRSMismatchError((crs, bb.crs))\n\n    return BoundingBox(L, B, R, T, crs)\n\n\ndef bbox_intersection", "        T = max(t, T)\n\n    if bbs and crs != bbs[0].crs:\n        raise CRSMismatchError((crs, bbs[0].crs))\n\n    return BoundingBox(L, B, R, T, crs)\n\n\ndef bbox_intersection", "bbox_union checks only the second box")
+M("C01", "bbox_isect_none_wildcard", "odc/geo/geom.py", "        T = min(t, T)\n\n        if crs != bb.crs:", "        T = min(t, T)\n\n        if crs is not None and crs != bb.crs:", "bbox_intersection: first box without CRS accepts anything")
+M("C01", "pixel_translation_no_check", "odc/geo/geobox.py", "    if a.crs != b.crs:\n        raise ValueError(\"Geobox CRSs must match\")\n", "", "pixel_translation without CRS check")
+M("C01", "crs_eq_true_when_epsg_unset", "odc/geo/crs.py", "        if self._str == other._str:\n            return True\n\n        return self._crs == other._crs", "        if self._str == other._str:\n            return True\n\n        return True", "CRS equality falls back to True")
+M("C01", "common_crs_second_only", "odc/geo/geom.py", "    for crs in all_crs[1:]:\n        if crs != ref:", "    for crs in all_crs[1:2]:\n        if crs != ref:", "common_crs looks at the second geometry only")
+M("C01", "unary_union_second_only", "odc/geo/geom.py", "    for g in geoms[1:]:\n        if crs != g.crs:", "    for g in geoms[1:2]:\n        if crs != g.crs:", "unary_union looks at the second geometry only")
+M("C01", "result_untagged", "odc/geo/geom.py", "        if isinstance(result, base.BaseGeometry):\n            return Geometry(result, first.crs)", "        if isinstance(result, base.BaseGeometry):\n            return Geometry(result, None)", "binary geometry results lose their CRS")
+M("C01", "crs_ne_by_identity", "odc/geo/crs.py", "    def __ne__(self, other) -> bool:\n        return not self == other", "    def __ne__(self, other) -> bool:\n        return self is not other and str(self) != str(other)", "__ne__ compares spellings: equal CRSs in different spellings rejected")
+M("C01", "crs_eq_epsg_shortcut_any", "odc/geo/crs.py", "        if self._epsg and other._epsg:\n            return self._epsg == other._epsg", "        if self._epsg and other._epsg:\n            return self._epsg // 1000 == other._epsg // 1000", "EPSG codes compared too coarsely (4326 == 4283)")
